@@ -256,15 +256,15 @@ func (serviceCore *ServiceCore) Init() error {
 		serviceCore.NodeInfo.KeyPairs = append(serviceCore.NodeInfo.KeyPairs, keyPair)
 	}
 
-	// load clients
+	// load clients. a missing file only means that no client was registered yet
 	err = serviceCore.loadClients()
-	if err != nil {
+	if err != nil && !errors.Is(err, os.ErrNotExist) {
 		return err
 	}
 
-	// load acls
+	// load acls. a missing file only means that no access controls were set yet
 	err = serviceCore.loadAcls()
-	if err != nil {
+	if err != nil && !errors.Is(err, os.ErrNotExist) {
 		return err
 	}
 
@@ -362,7 +362,7 @@ func (serviceCore *ServiceCore) DeleteClientAccessControls(clientID string) {
 
 	serviceCore.accessControls.Delete(clientID)
 
-	jsonData, _ := json.Marshal(serviceCore.GetClients())
+	jsonData, _ := json.Marshal(serviceCore.GetAllAccessControls())
 	_ = ioutil.WriteFile(serviceCore.Location+string(os.PathSeparator)+"acls.json", jsonData, 0o644)
 }
 
